@@ -125,6 +125,8 @@ def summarize_tie(name, recs, rule, extra_dist=None):
             mism.append({"label": r["label"], "real": list(r["real"]), "model": list(r["model"] or [])})
     nbad = sum(1 for r in recs if r["reached"] and not r["agree"])
     d = dict(dist)
+    d["input_ok (hypothesis of C07_checker_no_panic) evaluated / false"] = [
+        sum(1 for r in recs if r["reached"]), sum(1 for r in recs if r["reached"] and r.get("input_ok") is False)]
     d["first_error_kinds"] = dict(kinds)
     d.update(extra_dist or {})
     samples = [{"label": r["label"], "real": list(r["real"]), "model": list(r["model"])} for r in recs if r["reached"]][:6]
